@@ -135,45 +135,51 @@ def takeSegs : Nat → List Char → Option (List Char × List Char)
            else (takeSegs fuel r').map (fun (p, r'') => (seg ++ '/' :: p, r'')))
       | _ => some (seg, r)
 
+/-- `(:(?P<port>\d+))?` is kept only when the pathname can start right after it -/
+def takePort (r : List Char) : Option String × List Char :=
+  match r with
+  | ':' :: r' =>
+    let (d, r'') := takeWhileC isDigit r'
+    (match d, r'' with
+     | _ :: _, '/' :: _ => (some (String.ofList d), r'')
+     | _ :: _, ':' :: _ => (some (String.ofList d), r'')
+     | _, _ => (none, r))
+  | _ => (none, r)
+
+/-- the path after its first separator, up to the suffix -/
+def takePath (r2 : List Char) : Option (List Char × List Char) :=
+  match r2 with
+  | [] => some ([], [])
+  | c :: _ => if c == '@' || c == '#' then some ([], r2) else takeSegs (r2.length + 1) r2
+
+/-- `[:port] path [suffix]` after user and host -/
+def authStep (proto : String) (user : Option String) (host : List Char) (r : List Char) : PyM GitUrl :=
+  let (port, r1) := takePort r
+  match r1 with
+  | sep :: r2 =>
+    if sep == '/' || sep == ':' then
+      match takePath r2 with
+      | none => .error .unmodelled
+      | some (p, r3) =>
+        match parseSuffix r3 with
+        | none => .error .unmodelled
+        | some (rev, sub) =>
+          .ok { protocol := some proto, resource := if host.isEmpty then none else some (String.ofList host),
+                pathname := some (String.ofList (sep :: p)), user := user, port := port, rev := rev,
+                subdirectory := sub }
+    else .error .unmodelled
+  | [] => .error .unmodelled
+
 /-- the part after `scheme://` -/
 def parseAuthorityPath (proto : String) (s : List Char) : PyM GitUrl :=
   let (u1, r) := takeWhileC isUChar s
-  let step (user : Option String) (host : List Char) (r : List Char) : PyM GitUrl :=
-    -- `(:(?P<port>\d+))?` is kept only when the pathname can start right after it
-    let (port, r1) : Option String × List Char :=
-      match r with
-      | ':' :: r' =>
-        let (d, r'') := takeWhileC isDigit r'
-        (match d, r'' with
-         | _ :: _, '/' :: _ => (some (String.ofList d), r'')
-         | _ :: _, ':' :: _ => (some (String.ofList d), r'')
-         | _, _ => (none, r))
-      | _ => (none, r)
-    match r1 with
-    | sep :: r2 =>
-      if sep == '/' || sep == ':' then
-        let pr : Option (List Char × List Char) :=
-          match r2 with
-          | [] => some ([], [])
-          | c :: _ => if c == '@' || c == '#' then some ([], r2) else takeSegs (r2.length + 1) r2
-        match pr with
-        | none => .error .unmodelled
-        | some (p, r3) =>
-          match parseSuffix r3 with
-          | none => .error .unmodelled
-          | some (rev, sub) =>
-            .ok { protocol := some proto, resource := if host.isEmpty then none else some (String.ofList host),
-                  pathname := some (String.ofList (sep :: p)), user := user, port := port, rev := rev,
-                  subdirectory := sub }
-      else .error .unmodelled
-    | [] => .error .unmodelled
   match r with
   | '@' :: r' =>
     if u1.isEmpty then .error .unmodelled
     else
       let (h, r'') := takeWhileC isUChar r'
-      if h.isEmpty then .error .unmodelled else step (some (String.ofList u1)) h r''
-  | _ => step none u1 r
+      if h.isEmpty then .error .unmodelled else authStep proto (some (String.ofList u1)) h r''
+  | _ => authStep proto none u1 r
 
 /-- scp-like form `[user@]host:seg/seg…` (fourth pattern; no `protocol` group, hence the default `"ssh"`) -/
 def parseScp (s : List Char) : PyM GitUrl :=
